@@ -225,9 +225,16 @@ def gen_body_seg(rnd, hl_state, tags):
     return (sid, els)
 
 
-def fresh_ctl(rnd, used, width=None):
+def fresh_ctl(rnd, used, width=None, dl=None):
     while True:
         r = rnd.random()
+        if dl is not None and not width and rnd.random() < 0.12:
+            # a control number containing a character that is a delimiter only in the DEFAULT set (~ * :), plain data here
+            free = [ch for ch in '*:~' if ch not in dl.values()]
+            if free:
+                c = rnd.choice('ABC12') + rnd.choice(free) + rnd.choice('0123456789')
+                if c not in used:
+                    return c
         if width:
             c = ''.join(rnd.choice('0123456789') for _ in range(width)) if r < 0.85 else \
                 ''.join(rnd.choice('ABC 0123456789') for _ in range(width))
@@ -284,7 +291,7 @@ def gen_history(rnd, dl, tags):
                     ctl = rnd.choice(gs_ids)
                     tags.append('dup-control-number')
                 else:
-                    ctl = fresh_ctl(rnd, gs_ids)
+                    ctl = fresh_ctl(rnd, gs_ids, dl=dl)
                 segs.append(mk_gs(rnd, ctl))
                 gs_ids.append(ctl)
                 cur['gs'] = ctl
@@ -301,7 +308,7 @@ def gen_history(rnd, dl, tags):
                     ctl = rnd.choice(st_ids)
                     tags.append('dup-control-number')
                 else:
-                    ctl = fresh_ctl(rnd, st_ids)
+                    ctl = fresh_ctl(rnd, st_ids, dl=dl)
                 segs.append(mk_st(rnd, ctl))
                 st_ids.append(ctl)
                 cur['st'] = ctl
